@@ -352,11 +352,13 @@ theorem balance_moves_receiveCommit_htlcs (n0 : Node) (h0 : InitOK n0) (ops : Li
     `SignNextCommitment` in state `a` is never answered with an Invalid*SigError by
     `ReceiveNewCommitment` in a state `b` that is in `LogAgreement` with `a`.
 
-    Full statement (not proved here): in `System`, for every schedule of local actions and
-    in-order deliveries from a well-formed initial pair, `LogAgreement` holds at every delivery
-    of a `commitSig` (FIFO queues + one-unacked-commitment window).  What is missing is that
-    cross-node inductive invariant; the driver checks the `LogAgreement` hypothesis on every
-    signature delivery of every real trace instead. -/
+    Full statement: in `System`, for every schedule of local actions and in-order deliveries
+    from a well-formed initial pair, the receiver's construction is the signer's at every
+    delivery of a `commitSig`.  That is proved in `XProps.lean` (`honest_sig_verifies`, by the
+    inductive cross-node invariant `XInv`) for the link-disciplined system without update_fee.
+    For schedules with update_fee / delayed revocations only this pairwise form is proved; the
+    driver checks the `LogAgreement` hypothesis on every signature delivery of every real
+    trace. -/
 theorem honest_sig_verifies_partial {a b a' : Node} {sv : SigView} (hA : LogAgreement a b)
     (hs : a.sign = (.ok, a', some sv)) : (b.receiveCommit sv).1 ≠ .invalidSig := by
   unfold Node.sign at hs
@@ -386,11 +388,12 @@ theorem honest_sig_verifies_partial {a b a' : Node} {sv : SigView} (hA : LogAgre
     same fee rate, identical transaction, and the same HTLCs (index, amount, expiry, hash, dust
     flag) with the direction flipped.
 
-    Full statement (not proved here): `mirror_when_idle` — in `System`, whenever both queues are
-    empty and no update is pending on either side, `A.localCommit = mirror B.remoteCommit` and
-    vice versa.  It follows from this theorem once `LogAgreement` is shown to hold at every
-    signature delivery (the missing cross-node invariant); the monitor checks the mirror property
-    itself on every idle state and every signed commitment of the real traces. -/
+    Full statement: `mirror_when_idle` — in `System`, whenever both queues are empty and no
+    update is pending on either side, `A.localCommit = mirror B.remoteCommit` and vice versa.
+    Proved in `XProps.lean` (`mirror_when_idle`, `mirror_signed`, `commitments_mirror`) for the
+    link-disciplined system without update_fee; for update_fee / delayed revocations only this
+    pairwise form is proved, and the monitor checks the mirror property itself on every idle
+    state and every signed commitment of the real traces. -/
 theorem mirror_signed_partial {a b a' b' : Node} {sv : SigView} (hA : LogAgreement a b)
     (hs : a.sign = (.ok, a', some sv)) (hr : b.receiveCommit sv = (.ok, b')) :
     let ca := a'.chainR.tip
